@@ -75,6 +75,10 @@ def rand_matrix(rng, n, kind):
         return [[round(base + rng.randint(-9, 9) * 0.001, 3) for _ in range(n)] for _ in range(n)]
     if kind == 'float':
         return [[round(rng.random(), 4) for _ in range(n)] for _ in range(n)]
+    if kind == 'ultrafine':
+        # totals of different assignments / lists differ by 1e-7 .. 1e-5 only: still different
+        base = rng.choice([1 / 3., 0.5, 0.99999])
+        return [[min(1.0, base + rng.randint(-9, 9) * 1e-7) for _ in range(n)] for _ in range(n)]
     return [[rng.choice(PALETTE) for _ in range(n)] for _ in range(n)]
 
 
@@ -191,7 +195,7 @@ def run_flat(ctx):
         lists = []
         tie_pattern = nlists == 3 and rng.random() < 0.4
         for li in range(nlists):
-            C = rand_matrix(rng, n, rng.choice(['identity', 'diag_dominant', 'random', 'random', 'fine', 'float']))
+            C = rand_matrix(rng, n, rng.choice(['identity', 'diag_dominant', 'random', 'random', 'fine', 'float', 'ultrafine']))
             if tie_pattern:
                 # lists 0 and 2 reach exactly the same best total with the credit spread differently over the boxes,
                 # list 1 is strictly worse: the tie-break between alternative lists must still return a best one
@@ -205,6 +209,11 @@ def run_flat(ctx):
         table = {}
         for _, t, _ in lists:
             table.update(t)
+        if rng.random() < 0.2:
+            # credits handed back as numpy scalars (what an author computing credits with numpy would produce)
+            import numpy as _np
+            table = {k_: _np.float64(v_) for k_, v_ in table.items()}
+            ctx.count('numpy_credit_tables')
         sub = lib.TableGrader(table=table, ids=True, msg_on_zero=True)
         use_list = ordered and rng.random() < 0.4
         subgraders = [lib.TableGrader(table=table, ids=True) for _ in range(n)] if use_list else sub
